@@ -761,13 +761,58 @@ def run(ctx):
         ctx.check(sup_ok, 'C16.R8', 'KmipEngine._process_template_attribute|accept', m.site(n.stmt, pta),
                   'attribute accepted only after is_attribute_supported', 'a template attribute is accepted without the version support test')
     # policy built from the request version
-    pol_ok = False
-    for n in walk_local(spv):
-        if isinstance(n, ast.Assign) and is_self_attr(n.targets[0], '_attribute_policy') and isinstance(n.value, ast.Call) and n.value.args:
-            a = n.value.args[0]
-            if is_self_attr(a, '_protocol_version') or (isinstance(a, ast.Name) and a.id == pvar):
-                nn = node_of_expr(sg, n)
-                pol_ok = nn is not None and (not is_self_attr(a, '_protocol_version') or any(sg.dominates(x, nn) for x in st))
+    # the policy in force is AttributePolicy(<the accepted version>): built directly, or taken from a table that is a pure memo of
+    # exactly that construction (engmodel.pure_memo_fields)
+    from ..engmodel import pure_memo_fields
+    from ..dataflow import resolve
+    memo_ok, memo_bad = pure_memo_fields(m)
+    srd = ReachingDefs(sg)
+
+    def is_version(e, at, depth=0):
+        """e denotes the accepted protocol version: the parameter, self._protocol_version after it was stored from the parameter, or a
+        ProtocolVersion rebuilt from the parameter's major and minor (in that order)"""
+        e, at = resolve(srd, at, e)
+        if isinstance(e, ast.Name) and e.id == pvar:
+            return all(d[2] is None for d in srd.reaching(at, pvar))
+        if is_self_attr(e, '_protocol_version'):
+            return any(sg.dominates(x, at) for x in st)
+        if isinstance(e, ast.Call) and (call_name(e) or '').endswith('ProtocolVersion') and depth < 3:
+            args = list(e.args)
+            if len(args) == 1 and isinstance(args[0], ast.Starred):
+                t_, tn = resolve(srd, at, args[0].value)
+                args = list(t_.elts) if isinstance(t_, ast.Tuple) else []
+                at2 = tn
+            else:
+                at2 = at
+            if len(args) == 2:
+                ok_ = True
+                for a_, fld in zip(args, ('major', 'minor')):
+                    a2, an = resolve(srd, at2, a_)
+                    ok_ = ok_ and isinstance(a2, ast.Attribute) and a2.attr == fld and is_version(a2.value, an, depth + 1)
+                return ok_
+        return False
+
+    def is_policy_for_version(e, at, depth=0):
+        if depth > 5:
+            return False
+        if isinstance(e, ast.Call) and (call_name(e) or '').endswith('AttributePolicy') and len(e.args) == 1:
+            return is_version(e.args[0], at)
+        if isinstance(e, ast.Call) and isinstance(e.func, ast.Attribute) and e.func.attr == 'get' and is_self_attr(e.func.value) and e.func.value.attr in memo_ok:
+            return True
+        if isinstance(e, ast.Subscript) and is_self_attr(e.value) and e.value.attr in memo_ok:
+            return True
+        if isinstance(e, ast.Name):
+            ds = srd.reaching(at, e.id)
+            return bool(ds) and all(isinstance(v, ast.AST) and dn is not None and is_policy_for_version(v, dn, depth + 1) for _, v, dn in ds)
+        return False
+    pol_sites = [n for n in sg.nodes if n.kind == 'stmt' and isinstance(n.stmt, ast.Assign) and is_self_attr(n.stmt.targets[0], '_attribute_policy')]
+    pol_ok = bool(pol_sites) and all(is_policy_for_version(n.stmt.value, n) for n in pol_sites)
+    if pol_ok and memo_ok:
+        # every entry of the memo table is itself AttributePolicy(<version the key was built from>)
+        for n in sg.nodes:
+            if n.kind == 'stmt' and isinstance(n.stmt, ast.Assign) and isinstance(n.stmt.targets[0], ast.Subscript) and is_self_attr(n.stmt.targets[0].value) \
+                    and n.stmt.targets[0].value.attr in memo_ok:
+                pol_ok = pol_ok and is_policy_for_version(n.stmt.value, n)
     ctx.check(pol_ok, 'C16.R8', 'KmipEngine._set_protocol_version|attribute-policy-version', ssite, 'attribute policy rebuilt with the accepted version',
               'the attribute policy is not rebuilt from the accepted request version')
     # is_attribute_supported / deprecated bodies
